@@ -183,6 +183,9 @@ PreparedNext ==
        \/ \E n \in FsNames : DoRender(1, n, 1, "render")
        \/ DoRender(2, "n1", 1, "render")
        \/ GC
+       \* (the second name is registered again with a source of the same kind -- a library, a layout, an included page: what the
+       \* first name renders from then on is what a fresh engine with these registrations renders)
+       \/ \E s \in {9, 19, 7, 17} : (reg[1]["n2"] \in {9, 19, 7, 17} /\ reg[1]["n2"] # s /\ Register(1, "n2", s))
 FullNext ==
     /\ Len(hist) < MaxLen
     /\ \/ \E n \in Names : \E s \in SrcFor(n) : Register(1, n, s)
